@@ -195,3 +195,25 @@ def guarded_slice(ctx):
 @rule('C12', 'ad')
 def ad(ctx):
     c07.aead(ctx)
+
+
+@rule('C12', 'metadata-encrypted-when-present')
+def metadata_encrypted_when_present(ctx):
+    """generate encrypts the metadata whenever it is present (Some, empty included): the Option carrying the
+    encrypting closure is the metadata parameter itself, not a filtered / replaced copy."""
+    F = ctx.F
+    gb = F.fn('encrypted_header::EncryptedHeader::generate')
+    n = 0
+    for c in gb.calls(r'^std::option::Option::<T>::(map|and_then|map_or|map_or_else)$'):
+        cl = [cb for (_i, cb, _rv) in lib.closure_args(F, c) if any(x.calls(c07.DEM_ENC) for x in F.family(cb.key)) or cb.calls(c07.DEM_ENC)]
+        if not cl:
+            continue
+        n += 1
+        srcs = copy_chain_sources(gb, c.args[0])
+        opts = lib.params_by_type(gb, r'^std::option::Option<&\[u8\]>$')
+        ok = bool(srcs) and all(s[0] == 'param' and opts and s[1] == opts[0] and not s[2] for s in srcs)
+        ctx.check(ok, gb.key, 'encrypt(metadata) for every Some',
+                  'the metadata handed to the encrypting closure (line %d) is not the `metadata` parameter itself (%s): some present '
+                  'metadata (e.g. empty) is neither encrypted nor bound to the authentication data' % (
+                      c.ln, [(s[0], getattr(s[1], 'name', s[1])) for s in srcs][:2]), 'receiver is the parameter itself', c.where())
+    ctx.floor(n, 1, 'Option combinator carrying the metadata encryption')
